@@ -156,6 +156,7 @@ def cases(draw, convs=S.ALL_CONVS, unmarked=False):
                       "dtype": "f8", "fill": None})
     spec["vars"] = variables
     spec["mode"] = draw(st.sampled_from(["decoded", "dask", "file"])) if with_time else draw(st.sampled_from(["raw", "decoded", "dask", "file"]))
+    spec.update(draw(S.storage_options(conv)))
     route = draw(st.sampled_from(["function", "accessor", "accessor", "accessor"] if unmarked else
                                  ["function", "accessor", "accessor"])) if with_time else "function"
     return {"spec": spec, "route": route,
